@@ -239,7 +239,8 @@ theorem sem_good (U : List String) : ∀ (cmd : Cmd) (idx : Nat) (c : Choice) (i
       · cases h
       · simp only [Option.some.injEq, Prod.mk.injEq] at h
         rw [← h.2]
-        exact good_loopFix (good_closure (sem_good U b idx c i1 a h1)) _ _
+        exact good_loopFix (good_closure (sem_good U b idx c i1 a h1)) (idxOf U X)
+          (fun j => (List.range U.length).any fun i' => SMat.get (SMat.closure a) i' j == .p)
 theorem semSeq_good (U : List String) : ∀ (l : List Cmd) (idx : Nat) (c : Choice) (i : Nat) (M : SMat),
     semSeq U l idx c = some (i, M) → Good U.length M
   | [], idx, c, i, M, h => by
@@ -256,6 +257,117 @@ theorem semSeq_good (U : List String) : ∀ (l : List Cmd) (idx : Nat) (c : Choi
         simp only [Option.some.injEq, Prod.mk.injEq] at h
         rw [← h.2]
         exact good_mul (sem_good U cmd idx c i1 a h1) (semSeq_good U rest i1 c i2 b h2)
+end
+
+/-! ## a `skip` in a sequence, a singleton sequence -/
+
+theorem semSeq_skip_mid (U : List String) : ∀ (l1 l2 : List Cmd) (idx : Nat) (c : Choice),
+    semSeq U (l1 ++ Cmd.skip :: l2) idx c = semSeq U (l1 ++ l2) idx c
+  | [], l2, idx, c => by
+    simp only [List.nil_append, semSeq, sem]
+    cases h : semSeq U l2 idx c with
+    | none => rfl
+    | some p =>
+      obtain ⟨i2, b⟩ := p
+      simp only
+      rw [mul_identity_left (semSeq_good U l2 idx c i2 b h)]
+  | cmd :: l1, l2, idx, c => by
+    simp only [List.cons_append, semSeq]
+    cases sem U cmd idx c with
+    | none => rfl
+    | some p => simp only [semSeq_skip_mid U l1 l2]
+
+theorem semSeq_singleton (U : List String) (cmd : Cmd) (idx : Nat) (c : Choice) :
+    semSeq U [cmd] idx c = sem U cmd idx c := by
+  simp only [semSeq]
+  cases h : sem U cmd idx c with
+  | none => rfl
+  | some p =>
+    obtain ⟨i1, a⟩ := p
+    simp only
+    rw [mul_identity_right (sem_good U cmd idx c i1 a h)]
+
+end Misc12
+
+/-! ## renaming -/
+namespace Spec
+
+def Atom.rename (ρ : String → String) : Atom → Atom
+  | .var x => .var (ρ x)
+  | .const => .const
+
+mutual
+/-- apply `ρ` to every variable name of a command -/
+def Cmd.rename (ρ : String → String) : Cmd → Cmd
+  | .skip => .skip
+  | .asgnVar x y => .asgnVar (ρ x) (ρ y)
+  | .asgnConst x => .asgnConst (ρ x)
+  | .bin op x a b => .bin op (ρ x) (a.rename ρ) (b.rename ρ)
+  | .seq l => .seq (renameL ρ l)
+  | .ite t f => .ite (t.rename ρ) (f.rename ρ)
+  | .while_ b => .while_ (b.rename ρ)
+  | .loop X b => .loop (ρ X) (b.rename ρ)
+def renameL (ρ : String → String) : List Cmd → List Cmd
+  | [] => []
+  | c :: cs => c.rename ρ :: renameL ρ cs
+end
+
+end Spec
+
+namespace Misc12
+open Spec
+
+theorem beq_rename (ρ : String → String) (hρ : Function.Injective ρ) (a b : String) :
+    (ρ a == ρ b) = (a == b) := by
+  by_cases h : a = b
+  · subst h; simp
+  · have : ρ a ≠ ρ b := fun e => h (hρ e)
+    rw [beq_eq_false_iff_ne.2 this, beq_eq_false_iff_ne.2 h]
+
+theorem idxOf?_rename (ρ : String → String) (hρ : Function.Injective ρ) (U : List String) (x : String) :
+    (U.map ρ).idxOf? (ρ x) = U.idxOf? x := by
+  induction U with
+  | nil => rfl
+  | cons a l ih =>
+    rw [List.map_cons, List.idxOf?_cons, List.idxOf?_cons, ih, beq_rename ρ hρ]
+
+theorem idxOf_rename (ρ : String → String) (hρ : Function.Injective ρ) (U : List String) (x : String) :
+    idxOf (U.map ρ) (ρ x) = idxOf U x := by
+  unfold idxOf
+  rw [idxOf?_rename ρ hρ, List.length_map]
+
+theorem operandFlow_rename (ρ : String → String) (hρ : Function.Injective ρ) (op : String)
+    (a b : Atom) (alt : Nat) (v : String) :
+    operandFlow op (a.rename ρ) (b.rename ρ) alt (ρ v) = operandFlow op a b alt v := by
+  cases a <;> cases b <;> simp only [operandFlow, Atom.rename, beq_rename ρ hρ]
+
+mutual
+theorem sem_rename_aux (ρ : String → String) (hρ : Function.Injective ρ) (U : List String) :
+    ∀ (cmd : Cmd) (idx : Nat) (c : Choice), sem (U.map ρ) (cmd.rename ρ) idx c = sem U cmd idx c
+  | .skip, idx, c => by simp only [Cmd.rename, sem, List.length_map]
+  | .asgnVar x y, idx, c => by
+    simp only [Cmd.rename, sem, List.length_map, idxOf_rename ρ hρ, beq_rename ρ hρ, List.map_map,
+      Function.comp_def]
+  | .asgnConst x, idx, c => by
+    simp only [Cmd.rename, sem, List.length_map, idxOf_rename ρ hρ, List.map_map, Function.comp_def]
+  | .bin op x a b, idx, c => by
+    simp only [Cmd.rename, sem, List.length_map, idxOf_rename ρ hρ, List.map_map, Function.comp_def,
+      operandFlow_rename ρ hρ]
+  | .seq l, idx, c => by
+    simp only [Cmd.rename, sem]
+    exact semSeq_rename_aux ρ hρ U l idx c
+  | .ite t f, idx, c => by
+    simp only [Cmd.rename, sem, sem_rename_aux ρ hρ U t, sem_rename_aux ρ hρ U f]
+  | .while_ b, idx, c => by
+    simp only [Cmd.rename, sem, sem_rename_aux ρ hρ U b, List.length_map]
+  | .loop X b, idx, c => by
+    simp only [Cmd.rename, sem, sem_rename_aux ρ hρ U b, List.length_map, idxOf_rename ρ hρ]
+theorem semSeq_rename_aux (ρ : String → String) (hρ : Function.Injective ρ) (U : List String) :
+    ∀ (l : List Cmd) (idx : Nat) (c : Choice),
+      semSeq (U.map ρ) (renameL ρ l) idx c = semSeq U l idx c
+  | [], idx, c => by simp only [renameL, semSeq, List.length_map]
+  | cmd :: rest, idx, c => by
+    simp only [renameL, semSeq, sem_rename_aux ρ hρ U cmd, semSeq_rename_aux ρ hρ U rest]
 end
 
 end Misc12
